@@ -81,8 +81,24 @@ def generate(ctx, case):
             ctx.rmtree(d)
     gsi.set_info_params(info, dataset_type=case["type"],
                         encoding=case["encoding"])
+    # a second description derived from the same template by a shallow copy
+    # (it shares the full-resolution scale dictionary)
+    template_scale = info["scales"][0]
+    other = dict(info, scales=[template_scale])
     dyadic_pyramid.fill_scales_for_dyadic_pyramid(
         info, target_chunk_size=case["target"], max_scales=case["max_scales"])
+    snapshot = json.dumps(info, sort_keys=True)
+    try:
+        dyadic_pyramid.fill_scales_for_dyadic_pyramid(
+            other, target_chunk_size=max(2, case["target"] // 2)
+            if case["target"] > 2 else 4, max_scales=2)
+    except (AssertionError, NotImplementedError):
+        pass
+    if json.dumps(info, sort_keys=True) != snapshot:
+        ctx.fail("generating the scales of a second description (shallow "
+                 "copy of the same template) changed the info generated "
+                 "before: %s -> %s" % (snapshot[:200],
+                                       json.dumps(info, sort_keys=True)[:200]))
     text = json.dumps(info)
     back = json.loads(text)
     if back != info:
